@@ -123,6 +123,39 @@ class GivesOddStr:
         return OddStr("odd text")
     __repr__ = __str__
 
+class RudeMeta(type):
+    def __repr__(cls):
+        raise RuntimeError("no repr of the class")
+    __str__ = __repr__
+
+class Rude(metaclass=RudeMeta):
+    """Neither the value nor its class can be turned into text."""
+    def __str__(self):
+        raise RuntimeError("no str of the value")
+    __repr__ = __str__
+
+class BareNamespace:
+    """The least a class body's namespace has to be: item access, nothing else (no get, keys, items or iteration)."""
+    def __init__(self):
+        self._d = {}
+    def __getitem__(self, k):
+        return self._d[k]
+    def __setitem__(self, k, v):
+        self._d[k] = v
+
+class BareMeta(type):
+    @classmethod
+    def __prepare__(mcs, name, bases):
+        return BareNamespace()
+    def __new__(mcs, name, bases, ns):
+        return super().__new__(mcs, name, bases, dict(ns._d))
+
+def via_class_body(fn, *a):
+    """Call fn from the body of a class whose namespace (the frame's locals) is a BareNamespace."""
+    class Model(metaclass=BareMeta):
+        value = fn(*a)
+    return Model.value
+
 REPR_CALLS = []
 
 class CountedLeaf:
@@ -211,7 +244,7 @@ OFFENDERS = (
 
 # used by C06 only: a wholly hostile object, and one whose rendering alone outlasts the per-tracepoint time budget
 OFFENDERS_HOSTILE = ("BadAll()", "SlowStr(7)", "Nameless()", "GivesOddStr()", "{OddStr('k'): 1, 'plain': 2}", "mk_dag(14)",
-                     "Item()")
+                     "Item()", "Rude()")
 
 
 def value_expr(r, depth=0, offenders=False, maxdepth=3):
